@@ -106,6 +106,8 @@ def evalBin (op : BinOp) (x y : Val) : Except Err Val :=
   | _, _ =>
     -- arithmetic with ±inf (only the cases that stay infinite or become 0; NaN cases are errors in the model)
     match x, y, op with
+    | .inf n, .inf m, .add => if n = m then .ok (.inf n) else .error .other
+    | .inf n, .inf m, .sub => if n = m then .error .other else .ok (.inf n)
     | .inf n, v, .add | .inf n, v, .sub => if (num? v).isSome then .ok (.inf n) else .error .typeError
     | v, .inf n, .add => if (num? v).isSome then .ok (.inf n) else .error .typeError
     | v, .inf n, .sub => if (num? v).isSome then .ok (.inf (!n)) else .error .typeError
